@@ -307,3 +307,50 @@ def must_pass(f, callee_suffixes, extra_ok_blocks=()):
         if f.blocks[bi]["t"]["k"] == "ret":
             return False, bi
     return bool(targets), None
+
+
+def guards_before(f, accept_bb, defs=None, header=None):
+    """comparisons (from `comparisons`) whose branch dominates accept_bb and one of whose edges cannot reach it
+    (within the loop iteration if header is given).  Returns list of comparison dicts (with 'switch' added)."""
+    defs = defs or Defs(f)
+    dom = f.dominators().get(accept_bb, set())
+    out = []
+    avoid = {header} if header is not None else set()
+    for c in comparisons(f, defs):
+        for sb in switch_on(f, c["dest"], defs):
+            if sb not in dom or sb == accept_bb:
+                continue
+            targets = f.blocks[sb]["t"]["t"]
+            blocked = [t for t in targets if accept_bb not in f.reachable_from(t, avoid=avoid) and t != accept_bb]
+            if blocked:
+                cc = dict(c)
+                cc["switch"] = sb
+                out.append(cc)
+    return out
+
+
+def bool_call_guards(f, accept_bb, callee_suffix, defs=None, header=None):
+    """calls to a bool-returning function whose result branches before accept_bb with one edge not reaching it"""
+    defs = defs or Defs(f)
+    dom = f.dominators().get(accept_bb, set())
+    avoid = {header} if header is not None else set()
+    out = []
+    for bi, t in calls_to(f, callee_suffix):
+        for sb in switch_on(f, place_local(t["d"]), defs):
+            if sb in dom and sb != accept_bb:
+                targets = f.blocks[sb]["t"]["t"]
+                if any(accept_bb not in f.reachable_from(tg, avoid=avoid) and tg != accept_bb for tg in targets):
+                    out.append((bi, t))
+    return out
+
+
+def innermost_header(f, bb):
+    """the innermost natural-loop header (a block with a back edge: some predecessor is dominated by it) that
+    dominates bb and is reachable again from bb; None if bb is not inside a loop"""
+    dom = f.dominators()
+    pred = f.pred()
+    hs = []
+    for hb in dom.get(bb, ()):
+        if any(hb in dom.get(p, ()) for p in pred[hb]) and hb in f.reachable_from(bb) and hb != bb:
+            hs.append(hb)
+    return max(hs, key=lambda h: len(dom.get(h, ()))) if hs else None
